@@ -151,6 +151,7 @@ def collect(build):
     def walk(n, cls=None):
         for f in getattr(n, "functions", []):
             f._fn_class = cls
+            f._fn_scope = n          # (the same declaration text may occur in two namespaces)
             nodes.append(f)
         for c in getattr(n, "classes", []):
             walk(c, c)
@@ -166,7 +167,8 @@ def collect(build):
             continue
         orig = None
         for g in nodes:
-            if g.decl == f.decl and not g._generated and getattr(g, "_fn_class", None) is getattr(f, "_fn_class", None):
+            if g.decl == f.decl and not g._generated and getattr(g, "_fn_class", None) is getattr(f, "_fn_class", None) \
+                    and getattr(g, "_fn_scope", None) is getattr(f, "_fn_scope", None):
                 orig = g
                 break
         if orig is None:
